@@ -109,7 +109,14 @@ def main(tier, seed, replay=None):
             return json.dumps([t_.brief(), [None if o.id is None else int(o.id) for o in t_.objs]]), [id(o) for o in t_.objs]
         before, before_objs = snapshot()
         dom = tab.domains(); scope = sorted(tab.root_scope()); width = max(scope) + 1
-        pruned = prune(root, copy=True)
+        try:
+            pruned = prune(root, copy=True)
+        except Exception as e:
+            nr = dist.get("prune_raised", 0); dist["prune_raised"] = nr + 1
+            if nr < 3:
+                rep.violation(dict(kind="prune-raised-on-a-valid-circuit", circuit=json.loads(before)[0], ids=json.loads(before)[1],
+                                   error=f"{type(e).__name__}: {e}"), True)
+            continue
         try:
             after, _ = snapshot()
         except Exception as e:
